@@ -11,6 +11,7 @@ from __future__ import annotations
 
 import json
 import warnings
+import zlib
 from collections import Counter
 
 import pydiverse.transform as pdt
@@ -196,6 +197,12 @@ class Explorer:
                     else:
                         o.status = "verb-exc"
                     continue
+                if not isinstance(mres, M.Reject) and not mres.visible:
+                    # a table without visible columns cannot be exported (DESIGN 4.11):
+                    # the state is kept and extended, only its observation is skipped
+                    o.status, o.names, o.rows = "ok", [], None
+                    self.stats["unobservable_zero_columns"] += 1
+                    continue
                 try:
                     if self.observe is not None:
                         self.observe(o, b, self)
@@ -223,8 +230,10 @@ class Explorer:
         self.stats["traces_validated"] += sum(1 for o in obs.values() if o.status in ("ok", "verb-exc", "export-exc"))
         # outcome bookkeeping (vacuity guard)
         for b, o in obs.items():
-            if o.status == "ok":
-                self.outcomes[f"{b}:frame:{hash(json.dumps([o.names, C.rows_json(o.rows)], sort_keys=True, default=str)) & 0xffffffff:08x}"] += 1
+            if o.status == "ok" and o.rows is None:
+                self.outcomes[f"{b}:zero-columns"] += 1
+            elif o.status == "ok":
+                self.outcomes[f"{b}:frame:{zlib.crc32(json.dumps([o.names, C.rows_json(o.rows)], sort_keys=True, default=str).encode()):08x}"] += 1
             else:
                 self.outcomes[f"{b}:{o.status}:{exc_label(o.exc)}"] += 1
         if len(self.samples) < 4 and not vs and any(o.status == "ok" for o in obs.values()):
@@ -258,7 +267,7 @@ class Explorer:
             "input": {n: t["rows"] for n, t in step.world["tables"].items()},
             "model": None if isinstance(step.mres, M.Reject) else {"names": step.mres.names(), "rows": C.rows_json(step.mres.frame_rows())},
             "backends": {
-                b: ({"names": o.names, "rows": C.rows_json(o.rows)} if o.status == "ok" else f"{o.status}:{exc_label(o.exc)}")
+                b: ({"names": o.names, "rows": C.rows_json(o.rows or [])} if o.status == "ok" else f"{o.status}:{exc_label(o.exc)}")
                 for b, o in step.obs.items()
             },
         }
@@ -292,7 +301,7 @@ class Explorer:
             return vs
         if self.oracle in ("model", "both"):
             for b, o in step.obs.items():
-                if o.status != "ok":
+                if o.status != "ok" or o.rows is None:
                     continue
                 sym = self.diff_model(mres, o, b)
                 if sym:
@@ -302,7 +311,8 @@ class Explorer:
                     }))
         if self.oracle in ("differential", "both"):
             po, so = step.obs.get("polars"), step.obs.get("sqlite")
-            if po is not None and so is not None and po.status == "ok" and so.status == "ok":
+            if (po is not None and so is not None and po.status == "ok" and so.status == "ok"
+                    and po.rows is not None and so.rows is not None):
                 ordered = self.model.seq_comparable(mres, "sqlite") and self.model.seq_comparable(mres, "polars")
                 sym = C.diff_frames(po.names, po.rows, so.names, so.rows, ordered=ordered)
                 if sym:
